@@ -538,6 +538,50 @@ class Repo:
         # relative inside a sub-package
         return None
 
+    def struct_binding(self, fn: ast.AST, fi: FuncInfo) -> tuple[str, str] | None:
+        """(format, 'pack'|'unpack') if `fn` denotes a bound method of a precompiled
+        ``struct.Struct(<constant format>)`` (module- or class-level binding)."""
+        def of_value(v: ast.AST, mod, cls) -> tuple[str | None, str | None]:
+            meth = None
+            if isinstance(v, ast.Attribute) and v.attr in ("pack", "unpack"):
+                meth, v = v.attr, v.value
+            if isinstance(v, ast.Call) and unparse(v.func) in ("struct.Struct", "Struct") and v.args:
+                fmt = self.fold(v.args[0], mod, cls)
+                if isinstance(fmt, str):
+                    return fmt, meth
+            return None, None
+
+        def lookup(name: str):
+            cls = self.class_of_func(fi)
+            scopes = []
+            if cls is not None:
+                for c in self.mro(cls):
+                    scopes.append((c.node.body, c.module, c))
+            scopes.append((fi.module.tree.body, fi.module, None))
+            for body, mod, c in scopes:
+                for st in body:
+                    tgt = st.targets[0] if isinstance(st, ast.Assign) else (st.target if isinstance(st, ast.AnnAssign) else None)
+                    if isinstance(tgt, ast.Name) and tgt.id == name and getattr(st, "value", None) is not None:
+                        return of_value(st.value, mod, c)
+            return None, None
+
+        meth = None
+        e = fn
+        if isinstance(e, ast.Attribute) and e.attr in ("pack", "unpack") and not (isinstance(e.value, ast.Name) and e.value.id == "struct"):
+            meth, e = e.attr, e.value
+        name = None
+        if isinstance(e, ast.Name):
+            name = e.id
+        elif isinstance(e, ast.Attribute) and unparse(e.value) in ("self", "cls", "self.__class__"):
+            name = e.attr
+        if name is None:
+            return None
+        fmt, m2 = lookup(name)
+        if fmt is None:
+            return None
+        m = meth or m2
+        return (fmt, m) if m else None
+
     def fold_in(self, node: ast.AST, fi: FuncInfo, env: dict | None = None) -> Any:
         cls = fi.cls
         p = fi
